@@ -223,6 +223,17 @@ func collapse(s string) string { return strings.Join(strings.Fields(s), " ") }
 
 func attrEq(tag, key, a, b string) bool { return collapse(a) == collapse(b) }
 
+// wideBeforeHazard: a non-ASCII character followed, later in s, by text that must be written
+// escaped (a tag-like "<x" or something that decodes as a character reference).
+func wideBeforeHazard(s string) bool {
+	for i, r := range s {
+		if r > 0x7f {
+			return riskyText(s[i:])
+		}
+	}
+	return false
+}
+
 var digitRef = regexp.MustCompile(`&[A-Za-z]+[0-9]`)
 var mustacheRe = regexp.MustCompile(`(?s)\{\{(.*?)\}\}`)
 
@@ -758,6 +769,9 @@ func classify(c Case) (bool, []string) {
 						if digitRef.MatchString(v) {
 							add("attr-value:entity-like-name-with-digit")
 						}
+						if wideBeforeHazard(v) {
+							add("attr-value:non-ascii-before-entity-like")
+						}
 					}
 					if strings.ContainsAny(v, "<>") {
 						add("attr-value:comparison")
@@ -799,6 +813,9 @@ func classify(c Case) (bool, []string) {
 					}
 					if digitRef.MatchString(m) {
 						add("text:mustache-with-entity-like-name-with-digit")
+					}
+					if wideBeforeHazard(m) {
+						add("text:mustache-non-ascii-before-hazard")
 					}
 					if strings.ContainsAny(m, `"'`) {
 						add("text:mustache-with-quote")
